@@ -326,7 +326,7 @@ pub fn generate_c14<W: Write>(c: &mut Cases<W>, rng: &mut Rng, thorough: bool) {
 /// Small-scope exhaustive files: EVERY subset of a 5-key universe (the empty key, prefixes of one
 /// another, 0xFF) with EVERY assignment of an empty / non-empty value, under every configuration of a
 /// small grid (quick: one configuration).  243 files per configuration.
-pub fn generate_exhaustive<W: Write>(c: &mut Cases<W>, thorough: bool) {
+pub fn generate_exhaustive<W: Write>(c: &mut Cases<W>, thorough: bool, with_old: bool) {
     let mut universe: Vec<Vec<u8>> = vec![vec![], vec![0], vec![0, 0], vec![0, 255], vec![255]];
     if thorough {
         universe = vec![vec![], vec![0], vec![0, 0], vec![0, 0, 0], vec![0, 255], vec![255], vec![255, 255]];
@@ -347,7 +347,7 @@ pub fn generate_exhaustive<W: Write>(c: &mut Cases<W>, thorough: bool) {
             for vmask in 0u32..(1 << keys.len()) {
                 let es: Vec<(Vec<u8>, Vec<u8>)> = keys.iter().enumerate()
                     .map(|(j, k)| ((*k).clone(), if vmask & (1 << j) != 0 { vec![7u8] } else { vec![] })).collect();
-                emit(c, cfg, &es, false);
+                emit(c, cfg, &es, with_old);
             }
         }
     }
